@@ -1023,12 +1023,17 @@ def check_hash_input_coverage(ck, R):
     by_attr = {}
     for (a, st) in def_reads:
         by_attr.setdefault(a, []).append(st)
+    _tables, _designator = _shared_tables(ck.repo.module(CH))
     for r in outer.returns():
         if r.value is None:
             continue
         v = r.value
         if isinstance(v, ast.Call) and A.call_attr(v) in ("repr", "_stable_repr", "str") and [A.norm(a) for a in v.args] == ["fn"]:
             continue  # the documented fallback for callables without code
+        if outer.nodes(r) and _table_reads(outer, v, outer.nodes(r)[0], _designator, _tables):
+            # a remembered value: whether the key it is remembered under determines the defaults and the captured values as well
+            # is decided where the table is filled (check_no_remembered_hash_inputs, C01.R13 / C13.R7)
+            continue
         for attr in FUNC_RELEVANT:
             nodes = outer.nodes_all(by_attr.get(attr, []))
             ok = bool(nodes) and all(outer.cfg.must_pass(nodes, i) for i in outer.nodes(r))
@@ -1476,6 +1481,348 @@ def check_recompute_from_scratch(ck, R):
           "(per generation, per rule key ...) is stale as soon as a tracked variable is re-bound or a helper redefined - nothing advances the generation "
           "until a scan notices - so a function that recomputes without having scanned adopts the old hash, and its freshly collected rules then "
           "report 'unchanged' for ever" % stale[0][1] if stale else "", fa.where(stale[0][0] if stale and hasattr(stale[0][0], "lineno") else feed["stmt"]))
+    check_no_remembered_hash_inputs(ck, R)
+
+
+_TABLE_WRITERS = {"setdefault", "update", "add", "append", "extend", "insert", "appendleft", "__setitem__"}
+_TABLE_READERS = {"get", "pop", "setdefault", "__getitem__"}
+
+
+def _slice_at(fa, seeds, control_dependence=True, stmts=()):
+    """_backward_slice that also remembers WHERE each node is evaluated: {id(node): (node, CFG node or None)}.  The bodies of
+    nested functions are not entered; what a called nested function reads from this function is represented by a read of that
+    variable at the place where the nested function is defined."""
+    out, seen_defs, seen_ctl, seen_fn = {}, set(), set(), set()
+    work = list(seeds)
+    mutations = {}
+    for st in fa.stmts():
+        if isinstance(st, (ast.If, ast.While, ast.For, ast.AsyncFor, ast.Try, ast.With, ast.AsyncWith)) or not fa.nodes(st):
+            continue
+        for x in A.walk_local(st):
+            if isinstance(x, ast.Call) and isinstance(x.func, ast.Attribute) and isinstance(x.func.value, ast.Name):
+                mutations.setdefault(x.func.value.id, []).append((st, list(x.args) + [k.value for k in x.keywords]))
+            if isinstance(x, (ast.Subscript, ast.Attribute)) and isinstance(x.ctx, ast.Store) and getattr(st, "value", None) is not None:
+                r_ = x
+                while isinstance(r_, (ast.Subscript, ast.Attribute)):
+                    r_ = r_.value
+                if isinstance(r_, ast.Name) and r_.id != "self":
+                    mutations.setdefault(r_.id, []).append((st, [st.value] + ([x.slice] if isinstance(x, ast.Subscript) else [])))
+
+    def control(st):
+        if not control_dependence:
+            return
+        cur = st
+        while cur is not None and cur is not fa.node:
+            par = fa.pm.get(cur)
+            if isinstance(par, (ast.If, ast.While)) and id(par) not in seen_ctl and cur is not par.test:
+                seen_ctl.add(id(par))
+                for i in fa.nodes(par.test)[:1]:
+                    work.append((par.test, i))
+            elif isinstance(par, (ast.For, ast.AsyncFor)) and id(par) not in seen_ctl and cur is not par.iter:
+                seen_ctl.add(id(par))
+                for i in fa.nodes(par)[:1]:
+                    work.append((par.iter, i))
+            cur = par
+
+    for (e0, at0) in seeds:
+        st0 = fa.stmt_of(e0) if fa.pm.get(e0) is not None else None
+        if st0 is not None:
+            control(st0)
+    for st0 in stmts:
+        control(st0)
+    while work:
+        (e, at) = work.pop()
+        if e is None:
+            continue
+        for n in A.walk_local(e):
+            out.setdefault(id(n), (n, at))
+            if isinstance(n, ast.Name) and isinstance(n.ctx, ast.Load) and at is not None:
+                for d in fa.df.reaching(at, n.id):
+                    if (d.node, d.name) in seen_defs:
+                        continue
+                    seen_defs.add((d.node, d.name))
+                    if d.value is not None:
+                        work.append((d.value, d.node))
+                    if d.stmt is not None:
+                        control(d.stmt)
+                for (st, exprs) in mutations.get(n.id, []) if fa.df.is_local(n.id) else []:
+                    if ("mut", id(st), n.id) in seen_defs:
+                        continue
+                    seen_defs.add(("mut", id(st), n.id))
+                    for x in exprs:
+                        work.append((x, fa.nodes(st)[0]))
+                    control(st)
+            if isinstance(n, ast.Call) and isinstance(n.func, ast.Name) and n.func.id in fa.fi.nested and n.func.id not in seen_fn:
+                seen_fn.add(n.func.id)
+                sub = fa.fi.nested[n.func.id].node
+                a_ = sub.args
+                own = {x.arg for x in a_.posonlyargs + a_.args + a_.kwonlyargs} | ({a_.vararg.arg} if a_.vararg else set()) | ({a_.kwarg.arg} if a_.kwarg else set())
+                own |= {x.id for b_ in sub.body for x in ast.walk(b_) if isinstance(x, ast.Name) and isinstance(x.ctx, ast.Store)}
+                names = sorted({x.id for b_ in sub.body for x in ast.walk(b_) if isinstance(x, ast.Name) and isinstance(x.ctx, ast.Load) and x.id not in own and fa.df.is_local(x.id)})
+                for nm in names:
+                    for i in fa.nodes(sub)[:1]:
+                        work.append((ast.copy_location(ast.Name(id=nm, ctx=ast.Load()), sub), i))
+                control(sub)
+    return out
+
+
+def _shared_tables(mod):
+    """Module-level names and class-level attributes of `mod` that functions of the module write into (subscript store, adding
+    method, `global` re-binding): {designator text ('T' / 'Class.T'): [(FuncInfo, statement or call, key, value)]}.  Tables that are only filled
+    while the module is imported (strategy lists) are constants as far as a running program is concerned."""
+    class_names = set(mod.classes)
+    out = {}
+
+    def designator(fi, e):
+        if isinstance(e, ast.Name) and e.id in mod.assigns:
+            cur = fi
+            while cur is not None:
+                a_ = cur.node.args
+                if e.id in cur.params or any(isinstance(x, ast.Name) and isinstance(x.ctx, ast.Store) and x.id == e.id for x in A.walk_body(cur.node)) \
+                        and not any(isinstance(x, ast.Global) and e.id in x.names for x in A.walk_body(cur.node)):
+                    return None
+                cur = cur.parent
+            return e.id
+        if isinstance(e, ast.Attribute) and isinstance(e.value, ast.Name):
+            if e.value.id in class_names:
+                return "%s.%s" % (e.value.id, e.attr)
+            if e.value.id == "cls" and fi.cls is not None:
+                return "%s.%s" % (fi.cls.name, e.attr)
+        return None
+
+    def read_key(fi, e):
+        """`T[K]` / `T.get(K ...)` / `T.setdefault(K, ...)` on a shared table -> (table, K)"""
+        if isinstance(e, ast.Subscript) and designator(fi, e.value):
+            return (designator(fi, e.value), e.slice)
+        if isinstance(e, ast.Call) and A.call_attr(e) in _TABLE_READERS and A.call_recv(e) is not None and e.args and designator(fi, A.call_recv(e)):
+            return (designator(fi, A.call_recv(e)), e.args[0])
+        return None
+
+    def parse(node, outer_key=None):
+        """(key, value) of a store statement / writer call; (None, None) when it is not of a form that is understood"""
+        k = v = None
+        if isinstance(node, (ast.Assign, ast.AnnAssign, ast.AugAssign)):
+            tg = next((t for t in (node.targets if isinstance(node, ast.Assign) else [node.target]) if isinstance(t, ast.Subscript)), None)
+            if tg is not None and node.value is not None:
+                k, v = tg.slice, node.value
+        elif isinstance(node, ast.Call) and A.call_attr(node) in ("setdefault", "__setitem__") and len(node.args) == 2:
+            k, v = node.args
+        if k is not None and outer_key is not None:
+            k = ast.copy_location(ast.Tuple(elts=[outer_key, k], ctx=ast.Load()), k)
+        return k, v
+
+    for fi in mod.all_funcs():
+        # sub-tables: a local that holds an entry of a shared table (`per_code = T.setdefault(code, {})`) - what is stored through
+        # it is stored in the table, under the pair of keys
+        entry = {}
+        for st in A.walk_body(fi.node):
+            if isinstance(st, ast.Assign) and len(st.targets) == 1 and isinstance(st.targets[0], ast.Name) and read_key(fi, st.value):
+                entry[st.targets[0].id] = read_key(fi, st.value)
+        for st in A.walk_body(fi.node):
+            if not isinstance(st, ast.stmt):
+                continue
+            if isinstance(st, (ast.Assign, ast.AugAssign, ast.AnnAssign)):
+                tgs = st.targets if isinstance(st, ast.Assign) else [st.target]
+                for t in tgs:
+                    if isinstance(t, ast.Subscript):
+                        d = designator(fi, t.value)
+                        if d:
+                            out.setdefault(d, []).append((fi, st) + parse(st))
+                        elif isinstance(t.value, ast.Name) and t.value.id in entry:
+                            out.setdefault(entry[t.value.id][0], []).append((fi, st) + parse(st, entry[t.value.id][1]))
+                    elif isinstance(t, ast.Name) and any(isinstance(x, ast.Global) and t.id in x.names for x in A.walk_body(fi.node)) and t.id in mod.assigns:
+                        out.setdefault(t.id, []).append((fi, st, None, None))
+            if isinstance(st, (ast.Expr, ast.Assign, ast.AnnAssign, ast.AugAssign, ast.Return)):
+                for c in A.walk_local(st):
+                    if isinstance(c, ast.Call) and A.call_attr(c) in _TABLE_WRITERS and A.call_recv(c) is not None:
+                        d = designator(fi, A.call_recv(c))
+                        if d:
+                            out.setdefault(d, []).append((fi, c) + parse(c))
+                        elif isinstance(A.call_recv(c), ast.Name) and A.call_recv(c).id in entry:
+                            out.setdefault(entry[A.call_recv(c).id][0], []).append((fi, c) + parse(c, entry[A.call_recv(c).id][1]))
+    return out, designator
+
+
+def _table_reads(fa, expr, at, designator, tables):
+    """Reads of a shared table that the value of `expr` is copied from: [(table, key expression or None, the read, CFG node)]"""
+    got = []
+    for (n, a_) in _slice_at(fa, [(expr, at)], control_dependence=False).values():
+        if isinstance(n, ast.Subscript) and isinstance(n.ctx, ast.Load):
+            d = designator(fa.fi, n.value)
+            if d in tables:
+                got.append((d, n.slice, n, a_))
+        elif isinstance(n, ast.Call) and A.call_recv(n) is not None and A.call_attr(n) in _TABLE_READERS:
+            d = designator(fa.fi, A.call_recv(n))
+            if d in tables:
+                got.append((d, n.args[0] if n.args else None, n, a_))
+    # a table handed on as a whole (`for v in T.values()`, `dict(T)`)
+    for (n, a_) in _slice_at(fa, [(expr, at)], control_dependence=False).values():
+        if isinstance(n, (ast.Name, ast.Attribute)) and isinstance(getattr(n, "ctx", None), ast.Load) and designator(fa.fi, n) in tables:
+            par = fa.pm.get(n)
+            if not ((isinstance(par, ast.Subscript) and par.value is n) or (isinstance(par, ast.Attribute) and par.value is n and isinstance(fa.pm.get(par), ast.Call)
+                                                                            and fa.pm.get(par).func is par and par.attr in _TABLE_READERS)):
+                got.append((designator(fa.fi, n), None, n, a_))
+    return got
+
+
+def _access(n):
+    """`X.a` / getattr(X, 'a'[, d]) / hasattr(X, 'a') with X a plain name -> (X, 'a'), else None"""
+    if isinstance(n, ast.Attribute) and isinstance(n.ctx, ast.Load) and isinstance(n.value, ast.Name):
+        return (n.value, n.attr)
+    if isinstance(n, ast.Call) and isinstance(n.func, ast.Name) and n.func.id in ("getattr", "hasattr") and len(n.args) >= 2 and isinstance(n.args[0], ast.Name) and A.const_str(n.args[1]):
+        return (n.args[0], A.const_str(n.args[1]))
+    return None
+
+
+def _uncovered_inputs(fa, value, key, at, anchor=None):
+    """What the value stored in a memo table depends on that the key it is stored under does not determine: reads of the function's
+    parameters (whole, or one attribute of them; followed through local copies) in the backward slice of `value` (data and control)
+    that are neither the very reads the key is computed from, nor reads of the same thing of the same variable, nor reads of an
+    object the key contains as a whole.  [(description, node)]"""
+    st_ = [x for x in [fa.stmt_of(anchor) if anchor is not None and not isinstance(anchor, ast.stmt) else anchor] if x is not None]
+    sv = _slice_at(fa, [(value, at)], control_dependence=True, stmts=st_)
+    sk = _slice_at(fa, [(key, at)], control_dependence=True, stmts=st_)
+    skd = _slice_at(fa, [(key, at)], control_dependence=False)
+    pm = fa.pm
+
+    def is_subject(nm):
+        par = pm.get(nm)
+        if isinstance(par, ast.Attribute) and par.value is nm:
+            return True
+        return isinstance(par, ast.Call) and isinstance(par.func, ast.Name) and par.func.id in ("getattr", "hasattr", "isinstance", "callable", "type", "id") and par.args and par.args[0] is nm
+
+    whole_in_key = [(n, a_) for (n, a_) in skd.values() if isinstance(n, ast.Name) and isinstance(n.ctx, ast.Load) and a_ is not None and (pm.get(n) is None or not is_subject(n))]
+    key_reads = [(n, a_) for (n, a_) in sk.values() if a_ is not None and (_access(n) is not None or isinstance(n, ast.Name))]
+
+    def same_var(name, a1, a2):
+        if not fa.df.is_local(name):
+            return True   # a variable of an enclosing function / a global: one binding as far as this function can tell
+        return a1 is not None and a2 is not None and fa.df.same_defs(name, a1, a2)
+
+    busy = set()
+
+    def name_covered(name, a_):
+        """the object held by `name` at `a_` is determined by the key: the key contains it as a whole, or it is a local copy / a part of covered things"""
+        if any(m.id == name and same_var(name, am, a_) for (m, am) in whole_in_key):
+            return True
+        if not fa.df.is_local(name) or a_ is None:
+            return False
+        ds = fa.df.reaching(a_, name)
+        if not ds or any(d.kind == "param" for d in ds):
+            return False
+        for d in ds:
+            if (d.node, d.name) in busy or d.value is None:
+                continue
+            busy.add((d.node, d.name))
+            try:
+                if not expr_covered(d.value, d.node):
+                    return False
+            finally:
+                busy.discard((d.node, d.name))
+        return True
+
+    def read_covered(n, a_):
+        if id(n) in sk:
+            return True
+        acc = _access(n)
+        if acc is not None:
+            subj, attr = acc
+            if any(_access(m) is not None and _access(m)[1] == attr and _access(m)[0].id == subj.id and same_var(subj.id, am, a_) for (m, am) in key_reads):
+                return True
+            return name_covered(subj.id, a_)
+        return name_covered(n.id, a_)
+
+    def expr_covered(e, a_):
+        done = set()
+        for x in A.walk_local(e):
+            acc = _access(x)
+            if acc is not None and (fa.df.is_local(acc[0].id)):
+                done.add(id(acc[0]))
+                if not read_covered(x, a_):
+                    return False
+        for x in A.walk_local(e):
+            if isinstance(x, ast.Name) and isinstance(x.ctx, ast.Load) and id(x) not in done and fa.df.is_local(x.id) and not read_covered(x, a_):
+                return False
+        return True
+
+    def param_like(name, a_):
+        """does `name` hold (on some path) what the caller handed in - a parameter of this function or a variable of an enclosing one?"""
+        if not fa.df.is_local(name):
+            cur = fa.fi.parent
+            while cur is not None:
+                if name in cur.params or any(isinstance(x, ast.Name) and isinstance(x.ctx, ast.Store) and x.id == name for x in A.walk_body(cur.node)):
+                    return True
+                cur = cur.parent
+            return False
+        return a_ is not None and any(d.kind == "param" for d in fa.df.reaching(a_, name))
+
+    bad = []
+    subjects = set()
+    for (n, a_) in sv.values():
+        acc = _access(n)
+        if acc is not None:
+            subjects.add(id(acc[0]))
+            root = acc[0].id
+            if root in ("self", "cls") or not (fa.df.is_local(root) or param_like(root, a_)):
+                continue
+            if not read_covered(n, a_):
+                bad.append(("`%s` of `%s`" % (acc[1], root), n))
+    for (n, a_) in sv.values():
+        if isinstance(n, ast.Name) and isinstance(n.ctx, ast.Load) and id(n) not in subjects and n.id not in ("self", "cls") and param_like(n.id, a_):
+            par = pm.get(n)
+            if par is not None and is_subject(n):
+                continue   # only its kind is looked at
+            if not read_covered(n, a_):
+                bad.append(("`%s`%s" % (n.id, (" (handed to `%s`)" % A.short(par.func, 30)) if isinstance(par, ast.Call) and n in par.args else ""), n))
+    return bad
+
+
+def check_no_remembered_hash_inputs(ck, R):
+    """Second half of "from scratch": the functions that turn the program into hashes and rule sets (the whole of code_hash.py)
+    answer from what they are GIVEN.  Where one of them returns a value remembered in a table shared between calls, the key the
+    value was stored under has to determine everything the value was computed from - otherwise another function (equal code,
+    other defaults / captured values; same name, re-defined) is answered with its predecessor's value, in this process only."""
+    mod = ck.repo.module(CH)
+    tables, designator = _shared_tables(mod)
+    n_ob = 0
+    for fi in sorted(mod.all_funcs(), key=lambda f: f.qual):
+        if not any(isinstance(x, (ast.Name, ast.Attribute)) and designator(fi, x) in tables for x in A.walk_body(fi.node)):
+            continue
+        # (memo tables are commonly read under `try: ... except KeyError`: decided on the CFG where a subscript may raise)
+        fa = FA(ck, fi, exc_mode="all")
+        reads = []
+        for r in fa.returns():
+            if r.value is not None and fa.nodes(r):
+                reads += _table_reads(fa, r.value, fa.nodes(r)[0], designator, tables)
+        for t in sorted({t for (t, _k, _n, _a) in reads}):
+            first = next(x for x in reads if x[0] == t)
+            stores = []
+            for (gfi, st, k_, v_) in tables[t]:
+                g = fa if gfi is fi else FA(ck, gfi, exc_mode="all")
+                if not g.nodes(st):
+                    continue
+                if k_ is None:
+                    raise AnalysisError("%s: `%s` writes the shared table `%s`, which %s answers from, in a way that is not understood (expected "
+                                        "`table[key] = value` / `table.setdefault(key, value)`)" % (gfi.qual, A.short(st, 60), t, fi.name))
+                stores.append((g, st, k_, v_))
+            n_ob += 1
+            if first[1] is None:
+                ck.ob(R, fa.key(None, "remembered:" + t), False, "%s hands on the shared table `%s` as a whole: values computed for other arguments (and for earlier "
+                      "editions of the program) come with it" % (fi.name, t), fa.where(first[2]))
+                continue
+            bad = []
+            for (g, st, k, v) in stores:
+                for (what, n) in _uncovered_inputs(g, v, k, g.nodes(st)[0], st):
+                    bad.append((g, st, k, what, n))
+            ok = not bad
+            ck.ob(R, fa.key(None, "remembered:" + t), ok,
+                  "what %s answers from `%s` is stored under a key that determines everything it was computed from" % (fi.name, t) if ok else
+                  "%s can answer with a value remembered in `%s`, and `%s` stores it under the key `%s`, which does not determine %s that the value is computed from: "
+                  "another function with an equal key (closures of one factory share their code object; a re-executed definition that only changes a default value) is "
+                  "answered with the hash of its predecessor - did_change fires and the version is recomputed, but to the old value, while a fresh process computes "
+                  "the new one" % (fi.name, t, bad[0][0].fi.name, A.short(bad[0][2], 50), ", ".join(dict.fromkeys(b[3] for b in bad[:4]))) if bad else "",
+                  fa.where(first[2]))
+    return n_ob
 
 
 # --------------------------------------------------------------------------------- C01.R4
@@ -3929,6 +4276,247 @@ def check_graph_derivation(ck, R):
         and all(r.value is not None and hr.nodes(r) and _all_hashing_rules(r)
                 and hr.cfg.must_pass(hr.nodes_all(hr.calls("_update_dependencies")), hr.nodes(r)[0]) for r in hr.returns())
     ck.ob(R, hr.key(None), okh, "hash_rules() refreshes before answering" if okh else "hash_rules() does not refresh dependencies first", hr.where())
+
+
+class _ValueOrigins:
+    """Where the ELEMENTS / the value of an expression come from, followed by copying only (assignments, loop variables, what is
+    appended to / stored in a local in place, comprehensions, conditional expressions, the returned values of methods of the same
+    class and of nested functions with their parameters bound to the call's arguments) - never through the tests of branches.
+    Collected origins:
+      ("call", <method name>, <receiver, in the terms of the function the walk started in>)   a method call with no argument
+                                                                                               on something that is not a local copy
+      ("param", <function>, <name>)    a parameter of the function the walk started in
+      ("other", <text>, <where>)       a field, a global, a parameter nobody binds"""
+
+    _BUILDERS = {"list", "set", "tuple", "sorted", "frozenset", "reversed", "iter", "filter", "chain", "deque", "dict", "enumerate", "zip", "copy", "deepcopy"}
+
+    def __init__(self, ck, cls):
+        self.ck, self.cls = ck, cls
+        self.out = set()
+        self.seen = set()
+        self._mut = {}
+        self._fas = {}
+
+    def fa_of(self, fi):
+        if fi.qual not in self._fas:
+            self._fas[fi.qual] = FA(self.ck, fi)
+        return self._fas[fi.qual]
+
+    def mutations(self, fa):
+        if fa.qual in self._mut:
+            return self._mut[fa.qual]
+        m = {}
+        for st in fa.stmts():
+            if isinstance(st, (ast.If, ast.While, ast.For, ast.AsyncFor, ast.Try, ast.With, ast.AsyncWith)) or not fa.nodes(st):
+                continue
+            for x in A.walk_local(st):
+                if isinstance(x, ast.Call) and isinstance(x.func, ast.Attribute) and isinstance(x.func.value, ast.Name) and (x.args or x.keywords):
+                    m.setdefault(x.func.value.id, []).append((fa.nodes(st)[0], list(x.args) + [k.value for k in x.keywords]))
+                if isinstance(x, ast.Subscript) and isinstance(x.ctx, ast.Store) and isinstance(x.value, ast.Name) and getattr(st, "value", None) is not None:
+                    m.setdefault(x.value.id, []).append((fa.nodes(st)[0], [st.value]))
+        self._mut[fa.qual] = m
+        return m
+
+    def callee(self, fa, call):
+        """the method of the same class / the nested function a call runs, else None"""
+        f = call.func
+        if isinstance(f, ast.Name):
+            cur = fa.fi
+            while cur is not None:
+                if f.id in cur.nested:
+                    return cur.nested[f.id]
+                cur = cur.parent
+            return None
+        if isinstance(f, ast.Attribute) and isinstance(f.value, ast.Name) and self.cls is not None and f.attr in self.cls.methods \
+                and f.value.id in ("self", "cls", self.cls.name):
+            return self.cls.methods[f.attr]
+        return None
+
+    def subject(self, fa, e, at, bind):
+        """`e` in the terms of the function the walk started in: a parameter is replaced by what the call bound to it"""
+        ex = fa.expand(e, at)
+        if isinstance(ex, ast.Name) and bind is not None and ex.id in bind:
+            b = bind[ex.id]
+            if b is None:
+                return "<default>"
+            return self.subject(b[0], b[1], b[2], b[3])
+        return A.norm(ex)
+
+    def walk(self, fa, e, at, bind=None, bound=frozenset()):
+        if e is None or at is None:
+            return
+        k = (fa.qual, id(e), at, id(bind))
+        if k in self.seen:
+            return
+        self.seen.add(k)
+        if isinstance(e, ast.Constant) or isinstance(e, (ast.Compare, ast.Lambda, ast.JoinedStr)):
+            return
+        if isinstance(e, ast.IfExp):
+            self.walk(fa, e.body, at, bind, bound)
+            self.walk(fa, e.orelse, at, bind, bound)
+            return
+        if isinstance(e, (ast.ListComp, ast.SetComp, ast.GeneratorExp, ast.DictComp)):
+            b2 = set(bound)
+            for g in e.generators:
+                self.walk(fa, g.iter, at, bind, frozenset(b2))
+                b2 |= {x.id for x in ast.walk(g.target) if isinstance(x, ast.Name)}
+            for part in ([e.key, e.value] if isinstance(e, ast.DictComp) else [e.elt]):
+                self.walk(fa, part, at, bind, frozenset(b2))
+            return
+        if isinstance(e, ast.Call) and isinstance(e.func, ast.Name) and e.func.id == "getattr" and len(e.args) >= 2 and A.const_str(e.args[1]):
+            self.walk(fa, ast.copy_location(ast.Attribute(value=e.args[0], attr=A.const_str(e.args[1]), ctx=ast.Load()), e), at, bind, bound)
+            for x in e.args[2:]:
+                self.walk(fa, x, at, bind, bound)
+            return
+        if isinstance(e, ast.Call):
+            sub = self.callee(fa, e)
+            if sub is not None:
+                ps = [p_ for p_ in sub.params if not (p_ in ("self", "cls") and not sub.is_static and sub.cls is not None and sub.parent is None)]
+                nb = {}
+                a_ = sub.node.args
+                for i, p_ in enumerate(ps):
+                    v = A.arg_or_kw(e, i, p_)
+                    nb[p_] = (fa, v, at, bind) if v is not None else None
+                sfa = self.fa_of(sub)
+                for r in sfa.returns():
+                    if r.value is not None and sfa.nodes(r):
+                        self.walk(sfa, r.value, sfa.nodes(r)[0], nb, frozenset())
+                return
+            rcv = A.call_recv(e)
+            if rcv is not None and not e.args and not e.keywords and A.call_attr(e) not in ("copy", "keys", "values", "items"):
+                root = rcv
+                while isinstance(root, (ast.Attribute, ast.Subscript)):
+                    root = root.value
+                local_copy = isinstance(root, ast.Name) and fa.df.is_local(root.id) and root.id not in fa.fi.params and root.id not in bound
+                if not local_copy:
+                    self.out.add(("call", A.call_attr(e), self.subject(fa, rcv, at, bind)))
+                    return
+            inputs = ([rcv] if rcv is not None else []) + list(e.args) + [k_.value for k_ in e.keywords]
+            if not inputs and not (isinstance(e.func, ast.Name) and e.func.id in self._BUILDERS):
+                self.out.add(("other", A.short(e, 60), fa.where(e)))
+            for x in inputs:
+                self.walk(fa, x, at, bind, bound)
+            return
+        if isinstance(e, ast.Name):
+            if e.id in bound or not isinstance(e.ctx, ast.Load):
+                return
+            if not fa.df.is_local(e.id):
+                if fa.fi.parent is not None and e.id not in dir(__builtins__):
+                    # a variable of the enclosing function, read by a nested one: followed from where the nested function is defined
+                    host = self.fa_of(fa.fi.parent)
+                    if host.df.is_local(e.id) and host.nodes(fa.fi.node):
+                        self.walk(host, ast.copy_location(ast.Name(id=e.id, ctx=ast.Load()), fa.fi.node), host.nodes(fa.fi.node)[0], None, frozenset())
+                        return
+                if e.id not in self._BUILDERS and e.id not in ("None", "True", "False"):
+                    self.out.add(("other", e.id, fa.where(e)))
+                return
+            for d in fa.df.reaching(at, e.id):
+                if d.kind == "param":
+                    if e.id in ("self", "cls"):
+                        continue
+                    if bind is not None and e.id in bind:
+                        b = bind[e.id]
+                        if b is None:
+                            dv = self._default(fa, e.id)
+                            if dv is not None and not isinstance(dv, ast.Constant):
+                                self.out.add(("other", "default of `%s`" % e.id, fa.where()))
+                        else:
+                            self.walk(b[0], b[1], b[2], b[3], frozenset())
+                    else:
+                        self.out.add(("param", fa.fi.name, e.id))
+                elif d.value is not None:
+                    if d.kind in ("for", "unpack") or isinstance(d.value, (ast.expr,)):
+                        self.walk(fa, d.value, d.node, bind, frozenset())
+            for (mn, exprs) in self.mutations(fa).get(e.id, []) if e.id not in fa.fi.params else []:
+                for x in exprs:
+                    self.walk(fa, x, mn, bind, frozenset())
+            return
+        if isinstance(e, ast.Attribute):
+            root = e
+            while isinstance(root, (ast.Attribute, ast.Subscript)):
+                root = root.value
+            if isinstance(root, ast.Name) and (root.id in bound or (fa.df.is_local(root.id) and root.id not in fa.fi.params)):
+                self.walk(fa, e.value, at, bind, bound)
+            elif isinstance(root, ast.Name) and bind is not None and root.id in bind and bind[root.id] is not None:
+                self.out.add(("other", "%s of %s" % (e.attr, self.subject(fa, e.value, at, bind)), fa.where(e)))
+            elif isinstance(root, ast.Name):
+                self.out.add(("other", A.norm(e), fa.where(e)))
+            else:
+                self.walk(fa, e.value, at, bind, bound)
+            return
+        if isinstance(e, ast.Subscript):
+            self.walk(fa, e.value, at, bind, bound)
+            return
+        if isinstance(e, ast.BoolOp):
+            for v in e.values:
+                self.walk(fa, v, at, bind, bound)
+            return
+        if isinstance(e, ast.BinOp):
+            self.walk(fa, e.left, at, bind, bound)
+            self.walk(fa, e.right, at, bind, bound)
+            return
+        if isinstance(e, (ast.Tuple, ast.List, ast.Set)):
+            for x in e.elts:
+                self.walk(fa, x, at, bind, bound)
+            return
+        if isinstance(e, (ast.Starred, ast.Await, ast.NamedExpr)):
+            self.walk(fa, e.value, at, bind, bound)
+            return
+        if isinstance(e, ast.Dict):
+            for x in e.values:
+                self.walk(fa, x, at, bind, bound)
+            return
+
+    @staticmethod
+    def _default(fa, name):
+        a_ = fa.node.args
+        pos = a_.posonlyargs + a_.args
+        for i, x in enumerate(pos):
+            if x.arg == name:
+                j = i - (len(pos) - len(a_.defaults))
+                return a_.defaults[j] if j >= 0 else None
+        for x, dv in zip(a_.kwonlyargs, a_.kw_defaults):
+            if x.arg == name:
+                return dv
+        return None
+
+
+def check_graph_nodes_from_own_rules(ck, R):
+    """The dependency graph links every memento function to what IT reaches: the node of a function is built from the hash rules of
+    that very function (`<the function>.hash_rules()`, collected with its own package scope, its own first-level marks and its own
+    parent symbols).  Rules collected for another function - the root of the whole graph, the caller's - are a different set: what
+    a dependency reaches through plain helpers of its own package is outside the root's package scope and only watched there."""
+    ck.rule(R, "every node of the dependency graph is built from the hash rules of the node's own function", 1)
+    g = FA(ck, "dependency_graph.DependencyGraph.generate_graph")
+    cls = ck.repo.cls("dependency_graph.DependencyGraph")
+    rec = [c for c in g.calls("generate_graph") if g.nodes(c)]
+    ck.need(bool(rec), "generate_graph: no recursive call found (the graph is expected to be built by descending into each dependency)")
+    params = [p_ for p_ in g.fi.params if p_ not in ("self", "cls")]
+    GQ = "dependency_graph.DependencyGraph.generate_graph"
+    fn_params = [p_ for p_ in params if all(_call_arg(ck, c, GQ, p_) is not None and g.xnorm(_call_arg(ck, c, GQ, p_), g.nodes(c)[0]).endswith(".memento_fn") for c in rec)]
+    ck.need(len(fn_params) == 1, "generate_graph: expected one parameter that the recursive calls bind to `<rule>.memento_fn` (the function of the sub-graph), found %d" % len(fn_params))
+    P = fn_params[0]
+    vo = _ValueOrigins(ck, cls)
+    for c in rec:
+        vo.walk(g, _call_arg(ck, c, GQ, P), g.nodes(c)[0])
+    origins = vo.out
+    ck.need(bool(origins), "generate_graph: could not follow where the rules of a node come from")
+    good = {o for o in origins if o[0] == "call" and o[1] == "hash_rules" and o[2] == P}
+    bad = sorted(origins - good, key=str)
+    ok = bool(good) and not bad
+
+    def say(o):
+        if o[0] == "call":
+            return "`%s.%s()`" % (o[2], o[1])
+        if o[0] == "param":
+            return "parameter `%s` of %s (handed in by the caller, collected for whatever function the caller had)" % (o[2], o[1])
+        return "`%s`" % o[1]
+    ck.ob(R, g.key(None, "node-from-own-rules"), ok, "the rules a node's edges are made from are `%s.hash_rules()`" % P if ok else
+          "the rules from which generate_graph makes the edges of the node of `%s` can come from %s, not (only) from `%s.hash_rules()`: rules collected "
+          "for another function carry that function's package scope and first-level marks, so what a dependency of another package reaches through "
+          "its own plain helpers is missing (those helpers are only watched from the root's scope) - its edges and the functions behind them "
+          "vanish from graph()/df() while its own dependencies() still lists them" % (P, "; ".join(say(o) for o in bad[:3]) or "nowhere visible", P),
+          bad[0][2] if bad and bad[0][0] == "other" else g.where(rec[0]))
 
 
 def check_names_resolved_where_defined(ck, R):
